@@ -260,7 +260,10 @@ LogRestore(n, s) ==
 \* keep the derived fields the harness logs
 Norm(c, n, d) ==
   IF ~n.up THEN n
-  ELSE [n EXCEPT !.first = FirstIndex(n, d), !.last = LastIndex(n, d), !.lastTerm = LastTerm(n, d)]
+  ELSE [n EXCEPT !.first = FirstIndex(n, d), !.last = LastIndex(n, d), !.lastTerm = LastTerm(n, d),
+                 !.prs = [k \in DOMAIN n.prs |-> [n.prs[k] EXCEPT !.inflFull =
+                             (Len(n.prs[k].inflights) = c.maxInflightMsgs
+                              \/ SumBy(n.prs[k].inflights, "bytes") >= (IF c.maxInflightBytes = 0 THEN NoLimit ELSE c.maxInflightBytes))]]]
 
 ----------------------------------------------------------------------------
 (* tracker: Progress, Inflights, ProgressTracker                              *)
@@ -551,11 +554,14 @@ ReleasePendingReadIndex(c, n, d) ==
   ELSE ReleasePendingK(c, [n EXCEPT !.pendingReads = <<>>], d, n.pendingReads, 1)
 
 \* readOnly.maybeAdvance + answering the confirmed reads
+\* the entry a ReadIndex request carries: the harness' contexts are "r<rid>." (payload size follows)
+ReadEntry(rid) == LET psz == IF rid < 10 THEN 3 ELSE IF rid < 100 THEN 4 ELSE IF rid < 1000 THEN 5 ELSE 6
+                  IN  [EmptyEntry EXCEPT !.rid = rid, !.psz = psz, !.sz = psz + 2]
 RECURSIVE RespondReadsK(_, _, _, _)
 RespondReadsK(c, n, reads, k) ==
   IF k > Len(reads) THEN n
   ELSE RespondReadsK(c, RespondRead(c, n, [BaseMsg EXCEPT !.from = reads[k].from,
-                                                          !.entries = <<[EmptyEntry EXCEPT !.rid = reads[k].rid]>>],
+                                                          !.entries = <<ReadEntry(reads[k].rid)>>],
                                     reads[k].index), reads, k + 1)
 RoMaybeAdvance(c, n) ==
   LET newConfirmed == IF Weak("ro_quorum_ack")
@@ -758,10 +764,16 @@ StepCandidate(c, n, d, m, rto) ==
     [] m.type = "Heartbeat" -> OK(HandleHeartbeat(c, BecomeFollower(c, n, d, m.term, m.from, rto), d, m))
     [] m.type = "Snap" -> OK(HandleSnapshot(c, BecomeFollower(c, n, d, m.term, m.from, rto), d, m, rto))
     [] m.type = myResp ->
+         \* a granted pre-vote carries the term it was granted for; one for an earlier pre-campaign is ignored
+         IF Guard("prevote_grant_for_this_term", TRUE) /\ n.role = "PC" /\ ~m.reject /\ m.term # n.term + 1 THEN OK(n)
+         ELSE
          LET n1 == RecordVote(n, m.from, ~m.reject)
              res == TallyVotes(n1)
+             ownVote == \E k \in DOMAIN n1.votes : n1.votes[k].id = c.id /\ n1.votes[k].v
          IN  CASE res = "Won" ->
                     IF n1.role = "PC" THEN OK(Campaign(c, n1, d, "election", rto))
+                    \* the own vote (and term) must be durable first: wait for the self-addressed MsgVoteResp
+                    ELSE IF Guard("leader_after_own_vote_durable", ~ownVote) /\ ~ownVote THEN OK(n1)
                     ELSE OK(BcastAppend(c, BecomeLeader(c, n1, d, rto), d))
                [] res = "Lost" -> OK(BecomeFollower(c, n1, d, n1.term, None, rto))
                [] OTHER -> OK(n1)
